@@ -8,7 +8,7 @@ From Coq Require Import ZArith List String Bool Lia.
 From NadaV.PyMini Require Import PyMini.
 From NadaV.Model Require Import Rules Corr Mir Surface Trace Compile.
 From NadaV.Spec Require Import MirSpec.
-From NadaV.Proofs Require Import ScalarInv TraceMono C11Program.
+From NadaV.Proofs Require Import ScalarInv TraceMono C11Program WrapTypes.
 Import ListNotations.
 Open Scope string_scope.
 Open Scope Z_scope.
@@ -18,59 +18,13 @@ Open Scope list_scope.
 Lemma mir_name_complete t : smem (mir_name t) scalar_names = true.
 Proof. destruct t as [m b]; destruct m, b; reflexivity. Qed.
 
-Lemma to_mir_with_id w i : to_mir (with_id w i) = to_mir w.
-Proof. destruct w; reflexivity. Qed.
-
 Lemma inner_side d t : inner_mir d = Ok t -> completeb t = true -> side_mir d = Ok t.
 Proof.
   destruct d as [c|w|e sz|]; cbn [inner_mir side_mir]; intros H Hc; try exact H.
   inversion H; subst. discriminate Hc.
 Qed.
 
-Lemma side_marker d t t' : side_mir d = Ok t -> marker_mir d = Ok t' -> t' = t.
-Proof.
-  destruct d as [c|w|e sz|]; cbn [side_mir marker_mir]; intros H H'; try congruence; discriminate.
-Qed.
-
 Definition cw (w : wrap) : Prop := exists ty, to_mir w = Ok ty /\ completeb ty = true.
-
-Fixpoint mir_list (l : list wrap) : res (list mty) :=
-  match l with [] => Ok [] | v :: r => do t <- to_mir v; do ts <- mir_list r; Ok (t :: ts) end.
-Fixpoint mir_fields (l : list (string * wrap)) : res (list (string * mty)) :=
-  match l with [] => Ok [] | (k, v) :: r => do t <- to_mir v; do ts <- mir_fields r; Ok ((k, t) :: ts) end.
-
-Lemma to_mir_ntuple vals i : to_mir (WNTuple vals i) = do ts <- mir_list vals; Ok (TyNTuple ts).
-Proof.
-  cbn [to_mir].
-  match goal with |- bind (?f vals) _ = _ => assert (E : forall l, f l = mir_list l) end.
-  { induction l as [|v r IH]; [reflexivity|]. cbn fix beta iota. cbn [mir_list]. rewrite IH. reflexivity. }
-  rewrite E. reflexivity.
-Qed.
-Lemma to_mir_object vals i : to_mir (WObject vals i) = do ts <- mir_fields vals; Ok (TyObject ts).
-Proof.
-  cbn [to_mir].
-  match goal with |- bind (?f vals) _ = _ => assert (E : forall l, f l = mir_fields l) end.
-  { induction l as [|[k v] r IH]; [reflexivity|]. cbn fix beta iota. cbn [mir_fields]. rewrite IH. reflexivity. }
-  rewrite E. reflexivity.
-Qed.
-
-Lemma mir_list_spec : forall vals ts, mir_list vals = Ok ts -> Forall2 (fun v t => to_mir v = Ok t) vals ts.
-Proof.
-  induction vals as [|v r IH]; intros ts H; cbn [mir_list] in H.
-  - inversion H. constructor.
-  - destruct (to_mir v) as [t| |] eqn:Ev; cbn [bind] in H; try discriminate.
-    destruct (mir_list r) as [ts'| |] eqn:Er; cbn [bind] in H; try discriminate.
-    inversion H; subst. constructor; auto.
-Qed.
-Lemma mir_fields_spec : forall vals ts, mir_fields vals = Ok ts ->
-  Forall2 (fun kv kt => fst kv = fst kt /\ to_mir (snd kv) = Ok (snd kt)) vals ts.
-Proof.
-  induction vals as [|[k v] r IH]; intros ts H; cbn [mir_fields] in H.
-  - inversion H. constructor.
-  - destruct (to_mir v) as [t| |] eqn:Ev; cbn [bind] in H; try discriminate.
-    destruct (mir_fields r) as [ts'| |] eqn:Er; cbn [bind] in H; try discriminate.
-    inversion H; subst. constructor; [simpl; auto | auto].
-Qed.
 
 (* components of complete collections are complete *)
 Lemma cw_ntuple_component vals i n v : cw (WNTuple vals i) -> nth_wrap vals n = Some v -> cw v.
